@@ -9,7 +9,7 @@ Sources
         _assert_docstring_is_complete            ordered `if <cond>: raise <class>` statements
         _check_docstring                         call of the former, the loop over the annotations, the statements
                                                  before the if/elif, the if/elif chain (return branch / parameter branch)
-        _parse_documented_type                   the `'typing.' in type_` guard, `eval(type_, globals(), context)`,
+        _parse_documented_type                   the `type_ is None` guard, the `'typing.' in type_` guard, `eval(type_, globals(), context)`,
                                                  the except clauses (caught class -> raised class)
         _update_context                          pinned by a structural hash (hand-modelled as Model.Docstring.upd)
   pedantic/models/decorated_function.py          the accessors annotations / docstring / raw_doc
@@ -393,7 +393,16 @@ def tr_parse(src, tree):
     if [a.arg for a in f.args.args] != ['type_', 'context', 'err'] or f.args.vararg or f.args.kwarg or f.args.kwonlyargs:
         bad('signature of _parse_documented_type changed')
     body = strip_doc(f.body)
-    guard = 'None'
+    none_guard, guard = 'None', 'None'
+    # optional first statement: `if type_ is None: raise ...`
+    if len(body) >= 2 and if_raise_shape(body[0]) and isinstance(body[0].test, ast.Compare) and len(body[0].test.ops) == 1 \
+            and isinstance(body[0].test.ops[0], ast.Is):
+        g = body[0]
+        ok = (is_name(g.test.left, 'type_') and isinstance(g.test.comparators[0], ast.Constant) and g.test.comparators[0].value is None)
+        if not ok:
+            bad('_parse_documented_type: the first statement is an `is` test other than `if type_ is None: raise ...`')
+        none_guard = f'Some {raised_class(g.body[0])}'
+        body = body[1:]
     if len(body) == 2:
         g = body[0]
         ok = (if_raise_shape(g) and isinstance(g.test, ast.Compare) and len(g.test.ops) == 1 and isinstance(g.test.ops[0], ast.In)
@@ -434,7 +443,7 @@ def tr_parse(src, tree):
                 bad(f'_parse_documented_type line {s.lineno}: handler statement is not message building')
         for c in classes:
             catch.append(f'({c}, {raised})')
-    return guard, catch, f
+    return none_guard, guard, catch, f
 
 
 def tr_trigger(src, tree):
@@ -536,7 +545,7 @@ def translate():
         bad('check_docstring.py no longer does `from typing import *` (the globals of eval)')
     complete, f_complete = tr_complete(src, tree)
     calls_complete, prefix, branches, f_check = tr_check(src, tree)
-    guard, catch, f_parse = tr_parse(src, tree)
+    none_guard, guard, catch, f_parse = tr_parse(src, tree)
     f_upd = find_def(tree, '_update_context', UNIT)
     upd_sha = body_sha(f_upd)
     psrc, ptree = load(R_PED)
@@ -560,7 +569,7 @@ def translate():
     out += f'  dp_calls_complete := {coq_bool(calls_complete)};\n'
     out += f'  dp_loop_prefix := {stmts(prefix, "     ")};\n'
     out += '  dp_branches :=\n    [' + ';\n     '.join(f'({c},\n      {stmts(b, "       ")})' for c, b in branches) + '];\n'
-    out += f'  dp_parse := {{| pc_guard := {guard}; pc_catch := {coq_list(catch)} |}} |}}.\n\n'
+    out += f'  dp_parse := {{| pc_none := {none_guard}; pc_guard := {guard}; pc_catch := {coq_list(catch)} |}} |}}.\n\n'
     out += '(* the structural facts around the program *)\n'
     out += f'Definition check_runs_at_decoration_time : bool := {coq_bool(at_deco)}.\n'
     out += f'Definition require_shortcut_ok : bool := {coq_bool(short_ok)}.\n'
